@@ -278,6 +278,10 @@ def asa_frame_contract(ctx, c, R, n, P, base=0, tag=""):
     # ---- loop 4: cyclic scan of the neighbour list -------------------------------------------------
     def l4_havoc(interp, env, gh):
         interp.setvar(env, "k", K)
+        # the loop assigns is_accessible and k_closest_neighbor only on the iteration that breaks out of it: at the head of an
+        # arbitrary iteration they still have their values from before the loop (stated by the invariant below)
+        interp.setvar(env, "is_accessible", True)
+        interp.setvar(env, "k_closest_neighbor", KC)
         return []
 
     def l4_inv(interp, env, gh):
